@@ -22,8 +22,9 @@ from pathlib import Path
 VERIF = Path(__file__).resolve().parent.parent
 COMMON = "src/term_image/image/common.py"
 
-# signatures observed on the unchanged tree (finding F11, see notes/C11.md)
-BASELINE = re.compile(r"^(closeiter:handles-leak|dropiter:prompt-close|closeiter:prompt-close):.*\+image-closed")
+# signatures the unchanged tree produces: none (the ImageIterator.close()-after-image.close()
+# leak found by this check was fixed in /repo, commit 840eec5)
+BASELINE = re.compile(r"$^")
 
 MUTATIONS: dict[str, tuple[str, str, str, str]] = {
     # name: (file, old, new, what must catch it)
@@ -98,7 +99,7 @@ MUTATIONS: dict[str, tuple[str, str, str, str]] = {
     ),
     "close-image-ignores-source": (
         COMMON,
-        "        if img is not self._source:\n            img.close()\n",
+        "        if not is_source:\n            img.close()\n",
         "        img.close()\n",
         "caller-closed",
     ),
@@ -125,6 +126,26 @@ MUTATIONS: dict[str, tuple[str, str, str, str]] = {
         "                sent = yield frame\n                n = n + 1 if sent is None else sent - 1\n\n            image._seek_position = n = 0",
         "                sent = yield frame\n                n = n + 1 if sent is None else n_frames\n\n            image._seek_position = n = 0",
         "frame-index / result (a seek in the cached phase ends the pass)",
+    ),
+    "close-image-after-finalize": (  # reverts the fix of the defect this check found
+        COMMON,
+        """        try:
+            is_source = img is self._source
+        except AttributeError:  # The instance has been finalized
+            # A PIL image source must never be closed; any other kind of source is
+            # never a PIL image instance.
+            is_source = self._source_type is ImageSource.PIL_IMAGE
+        if not is_source:
+            img.close()
+""",
+        "        if img is not self._source:\n            img.close()\n",
+        "closeiter:handles-leak / dropiter:prompt-close with +image-closed",
+    ),
+    "release-file-after-first-pass": (  # seeded/C11-s1
+        COMMON,
+        "        if cached:\n            n_frames = len(cache)\n",
+        "        if cached:\n            n_frames = len(cache)\n            image._close_image(img)\n",
+        "next:raises:* and next:cache-visible:twin-raises-* (cache miss after the first pass)",
     ),
     "eof-off-by-one": (
         COMMON,
